@@ -463,7 +463,9 @@ class Path:
         self.solver.add(extra)
         from .ground import instantiate, collect, Q
         insts = []
-        qs = [q for q in self.qs if isinstance(q, Q)]
+        # feasibility pruning only uses the cheaply instantiable (triggered) schemas: fewer instances can only
+        # keep more paths alive, never lose one
+        qs = [q for q in self.qs if isinstance(q, Q) and q.trigger is not None]
         if qs:
             # ground instances of the schemas relevant to this query (keeps infeasible paths out)
             insts = instantiate(list(self.pc) + [extra], qs, rounds=2, cap=400)
